@@ -474,6 +474,11 @@ void sm9_z256_modp_haf(sm9_z256_t r, const sm9_z256_t a)
 
 void sm9_z256_modp_neg(sm9_z256_t r, const sm9_z256_t a)
 {
+	// -0 is 0, not p
+	if (sm9_z256_is_zero(a)) {
+		sm9_z256_set_zero(r);
+		return;
+	}
 	(void)sm9_z256_sub(r, SM9_Z256_P, a);
 }
 #endif
